@@ -25,12 +25,15 @@ from vf.oracle import act as A
 from vf.runner import Violation
 
 # ---- tolerances (HARNESS rule 2): |a-b| <= K*(scale) ; calibrated on the unchanged tree, see LEVEL_NOTE
-K_FORCE = 1e-11      # x (sum of |terms| of the force expression + 1e-3)
-K_LEN = 1e-11        # lengths: x (|terms| + 1)
-K_MOM = 1e-10        # direct moment formulas: x (sum |terms| + 1)
-K_FD = 2e-6          # finite-difference moment: x (1 + |moment| + |length|); h = 1e-6 central
+# worst observed error/scale on the unchanged tree (quick seeds 1-3, thorough seed 1 = 19805 cases, one 11379-case run
+# at seed 11): force/act_dot/next-act 4.8e-14, lengths 7.9e-16, direct moments 3.7e-16, qfrc 3.5e-16, FD 7.9e-8
+K_FORCE = 1e-11      # x (sum of |terms| of the force expression + 1e-3)            (~200x worst)
+K_LEN = 1e-13        # lengths: x (|terms| + 1)                                       (~125x worst)
+K_MOM = 1e-13        # direct moment formulas: x (sum |terms| + 1)                    (~270x worst)
+K_GEO = 1e-12        # lengths/moments that go through mat2quat / contact frames / slider-crank residual
+K_FD = 1e-5          # finite-difference moment: x (1 + |moment| + |length|); h = 1e-6 central (~125x worst)
 FD_H = 1e-6
-K_QFRC = 1e-11
+K_QFRC = 1e-13       #                                                                (~280x worst)
 STATS = {}
 ALL_LABELS = collections.Counter()
 
@@ -330,7 +333,7 @@ def check_transmission(cx):
                   'site_xmat; it equals the value obtained with site orientation = site_quat*xquat (instead of '
                   'xquat*site_quat): wrong whenever the site has a local orientation' % (tag, float(length[o]), wl))
         else:
-          close('len', length[o], wl, lsc, 1e-9, tag + ' length = gear . pose difference', 'length')
+          close('len', length[o], wl, lsc, K_GEO, tag + ' length = gear . pose difference', 'length')
       if not dr and not np.any(gear[3:]):
         need_fd.append(o)
         cx.labels.add('trn:refsite-static-fd')
@@ -357,7 +360,7 @@ def check_transmission(cx):
                       tag, i, o, float(length[o]), rod, res, o, used,
                       ' (read past the end of the array, nactuator=%d)' % int(m.nactuator) if o >= int(m.nactuator) else ''))
         else:
-          close('len', res, 0.0, rod + vv + 1, 1e-9,
+          close('len', res, 0.0, rod + vv + 1, K_GEO,
                 tag + ' rod-length residual | |crank - slider(length/gear)| - cranklength |', 'slidercrank-geometry')
         need_fd.append(o)
         cx.labels.add('trn:slidercrank-reach')
@@ -393,7 +396,7 @@ def check_transmission(cx):
       else:
         if cnt:
           want = -want / cnt
-        close('mom', M[o], want, float(np.max(np.abs(want))) + 1, 1e-9,
+        close('mom', M[o], want, float(np.max(np.abs(want))) + 1, K_GEO,
               tag + ' moment = -(mean over the body\'s contacts of the normal Jacobian)', 'moment')
         cx.ncon_body = max(cx.ncon_body, cnt)
     elif tk == 'so3':
@@ -428,7 +431,7 @@ def check_transmission(cx):
           cx.so3[i] = dict(q=A.qexp(rvw))     # continue with the engine's (defective) current orientation
       close('mom', M[o:o + 3], want, 3.0, K_MOM, tag + ' SO3 moment rows', 'moment')
       if abs(np.linalg.norm(rv) - math.pi) > 1e-5:
-        close('len', length[o:o + 3], rv, math.pi + 1, 1e-9, tag + ' SO3 lengths = rotation vector', 'length')
+        close('len', length[o:o + 3], rv, math.pi + 1, K_GEO, tag + ' SO3 lengths = rotation vector', 'length')
   # finite-difference oracle for the differentiable scalar lengths
   if need_fd and nv:
     G = fd_lengths(cx)
@@ -1077,7 +1080,7 @@ def main(ck):
   ck.run_hypothesis(test, st.tuples(gen_act.act_models('contact'), mg.state_seed()), n_con, name='contact')
   ck.extra['worst_error_over_scale'] = {k: float('%.3g' % v) for k, v in sorted(STATS.items())}
   ck.extra['label_histogram_full'] = dict(sorted(ALL_LABELS.items()))
-  ck.extra['tolerances'] = dict(K_FORCE=K_FORCE, K_LEN=K_LEN, K_MOM=K_MOM, K_FD=K_FD, FD_H=FD_H, K_QFRC=K_QFRC)
+  ck.extra['tolerances'] = dict(K_FORCE=K_FORCE, K_LEN=K_LEN, K_MOM=K_MOM, K_GEO=K_GEO, K_FD=K_FD, FD_H=FD_H, K_QFRC=K_QFRC)
 
 
 PROBE_TREE = ('<mujoco><worldbody><site name="s0" pos="0.1 0.2 0.3" euler="10 20 30"/>'
@@ -1213,7 +1216,7 @@ tendon-level clamp among several actuators (only the total and sign/magnitude mo
 and forcerange (order undocumented), tendon actuatorfrcrange with gear != 1 (generator keeps gear 1 there), RK4 activation
 integration (only the actrange invariant), ctrl delay/history, user/plugin types, dampratio/inheritrange, sleeping.
 Tolerances: |a-b| <= K*scale with scale = sum of the absolute values of the terms of the compared expression; K_FORCE =
-K_QFRC = K_LEN = 1e-11, K_MOM = 1e-10 (worst observed ratio over seeds 1-3 and one thorough run: see
-worst_error_over_scale in the evidence, all <= 2e-14, i.e. >= 100x margin), K_FD = 2e-6 for central differences with
-h = 1e-6 (worst observed 3e-9). Trusted: engine kinematics used by the oracle (site frames, ten_length, mj_jac*, contact
+1e-11, K_LEN = K_MOM = K_QFRC = 1e-13, K_GEO = 1e-12, K_FD = 1e-5 (central differences, h = 1e-6): each >= 100x the worst
+ratio observed on the unchanged tree over quick seeds 1-3, a thorough run (19805 cases) and an 11379-case run (force
+4.8e-14, lengths 7.9e-16, moments 3.7e-16, qfrc 3.5e-16, FD 7.9e-8); all 24 mutants are still caught. Trusted: engine kinematics used by the oracle (site frames, ten_length, mj_jac*, contact
 frames, qfrc_gravcomp), the verification build, clang record layouts.'''
